@@ -6,6 +6,7 @@
 package verifio
 
 import (
+	"runtime/debug"
 	"bufio"
 	"fmt"
 	"os"
@@ -49,6 +50,9 @@ func protect(r Runner, f []string) (res string) {
 	defer func() {
 		if p := recover(); p != nil {
 			res = "PANIC " + strings.ReplaceAll(strings.ReplaceAll(fmt.Sprint(p), " ", "_"), "\n", "_")
+			if os.Getenv("VERIF_STACK") != "" {
+				fmt.Fprintf(os.Stderr, "%v\n%s\n", p, debug.Stack())
+			}
 		}
 	}()
 	return r(f)
